@@ -73,6 +73,16 @@ NEEDS = {
  "C11-d": "a return two or more blocks deep and no return exactly one block deep (JumpFunctionReturn pushed into the direct parent's stack only)",
  "C12-d": "the same name declared in two different ancestor blocks and a read or assignment from a still deeper block that does not declare it (get_value_name returns the outermost declaration)",
  "C18-d": "a let NAME in a nested body where NAME is visible only from an enclosing block (the value is 'updated in place' in the current block's table, where it does not exist, so it is recorded nowhere)",
+ "C01-d": "a declared global constant c: T and, in a function, a parameter or let named c of another type U, read where T fits and U does not (constants looked up before locals in the ValueName arm)",
+ "C04-d": "a plain else whose body allocates a register after the condition / then-branch allocated some, with another type at a re-issued number (the else block state is created before the condition, with a stale counter)",
+ "C07-d": "two different operators of the same priority class meeting in a flat chain, e.g. a * b << c (the fold's tie rule became 'same operator' instead of 'same priority')",
+ "C13-d": "a call with more arguments than parameters whose argument in a declared position has the wrong type: callee(1.5, true) for fn callee(a: bool) (the arity guard counts accepted arguments; parameters[i] then indexes past the list)",
+ "C14-d": "a constant initialiser with three or more operands where a non-head operand is a literal and a later operand names an undeclared constant (the walk stops at the literal)",
+ "C15-d": "a function with a repeated parameter name (its root block is never registered in State::context: the early return of init_func_params skips the registration)",
+ "C16-d": "two equal declaration errors and a third, different one that sits between them in one order and not in another (errors.dedup() between the passes)",
+ "C17-d": "an earlier function with a nested return and no successfully analysed function-level return, then a later function with a plain function-level return (the with-label flag is a State field that is only cleared when consumed)",
+ "C19-d": "a call with two or more arguments, an earlier argument of the wrong type and a later (extension) argument whose parameter type differs from the earlier parameter's (arguments are checked against parameters[accepted so far])",
+ "C20-d": "a struct type with an attribute literally named name or methods (serde(flatten) on the attribute map collides with the struct's own keys; the stack no longer deserialises)",
  "C20-b": "a program with code after break / continue / return, whose error list is then serialised (serde(skip) on the three ForbiddenCodeAfter… kinds)",
 }
 def sh(cmd, **kw):
